@@ -4272,6 +4272,11 @@ async fn handle_connected_state_no_dtls(
             Ok(mut rtcp_loop) => {
                 report_peer_state(&inner, PeerConnectionState::Connected);
                 let grace = inner.config.ice_disconnect_grace;
+                // Hold only the weak reference while connected: the state task
+                // must not keep the connection alive, or dropping the last
+                // PeerConnection handle never reaches `Drop` and nothing is
+                // torn down. (`pc_temp` is a second strong reference.)
+                drop(pc_temp);
                 drop(inner);
 
                 let (grace_tx, mut grace_rx) = tokio::sync::mpsc::unbounded_channel::<u64>();
@@ -4382,15 +4387,24 @@ async fn handle_connected_state(
                             let dtls_guard = inner.dtls_transport.lock();
                             (*dtls_guard).as_ref().map(|dtls| dtls.subscribe_state())
                         };
+                        let grace = inner.config.ice_disconnect_grace;
+                        // Hold only the weak reference while connected (as the
+                        // RTP/SRTP variant does): the state task must not keep
+                        // the connection alive, or dropping the last
+                        // PeerConnection handle never reaches `Drop` and nothing
+                        // is torn down.
+                        drop(pc_temp);
+                        drop(inner);
 
                         if let Some(mut dtls_rx) = dtls_state_rx {
-                            let grace = inner.config.ice_disconnect_grace;
                             let (grace_tx, mut grace_rx) = tokio::sync::mpsc::unbounded_channel::<u64>();
                             let mut disconnect_epoch: u64 = 0;
                             loop {
                                 tokio::select! {
                                     _ = &mut rtcp_loop => {
-                                        propagate_sctp_close_reason(&inner);
+                                        if let Some(inner) = inner_weak.upgrade() {
+                                            propagate_sctp_close_reason(&inner);
+                                        }
                                         break;
                                     }
                                     res = ice_state_rx.changed() => {
@@ -4399,6 +4413,7 @@ async fn handle_connected_state(
                                         if is_ice_failed_or_closed(new_state) {
                                             return true;
                                         }
+                                        let Some(inner) = inner_weak.upgrade() else { return false; };
                                         match new_state {
                                             crate::transports::ice::IceTransportState::Disconnected => {
                                                 report_peer_state(&inner, PeerConnectionState::Disconnected);
@@ -4429,6 +4444,7 @@ async fn handle_connected_state(
                                             let state = dtls_rx.borrow().clone();
                                             if state == crate::transports::dtls::DtlsState::Closed || state == crate::transports::dtls::DtlsState::Failed {
                                                 debug!("DTLS closed/failed, disconnecting PC");
+                                                let Some(inner) = inner_weak.upgrade() else { return false; };
                                                 let reason = if state == crate::transports::dtls::DtlsState::Failed {
                                                     DisconnectReason::DtlsFailed
                                                 } else {
@@ -4447,6 +4463,7 @@ async fn handle_connected_state(
                                     }
                                     Some(epoch) = grace_rx.recv() => {
                                         if epoch == disconnect_epoch {
+                                            let Some(inner) = inner_weak.upgrade() else { return false; };
                                             let _ = inner.disconnect_reason.send_if_modified(|cur| {
                                                 if cur.is_none() {
                                                     *cur = Some(DisconnectReason::IceDisconnected);
@@ -4467,13 +4484,14 @@ async fn handle_connected_state(
                                 }
                             }
                         } else {
-                            let grace = inner.config.ice_disconnect_grace;
                             let (grace_tx, mut grace_rx) = tokio::sync::mpsc::unbounded_channel::<u64>();
                             let mut disconnect_epoch: u64 = 0;
                             loop {
                                 tokio::select! {
                                     _ = &mut rtcp_loop => {
-                                        propagate_sctp_close_reason(&inner);
+                                        if let Some(inner) = inner_weak.upgrade() {
+                                            propagate_sctp_close_reason(&inner);
+                                        }
                                         break;
                                     }
                                     res = ice_state_rx.changed() => {
@@ -4482,6 +4500,7 @@ async fn handle_connected_state(
                                         if is_ice_failed_or_closed(new_state) {
                                             return true;
                                         }
+                                        let Some(inner) = inner_weak.upgrade() else { return false; };
                                         match new_state {
                                             crate::transports::ice::IceTransportState::Disconnected => {
                                                 report_peer_state(&inner, PeerConnectionState::Disconnected);
@@ -4509,6 +4528,7 @@ async fn handle_connected_state(
                                     }
                                     Some(epoch) = grace_rx.recv() => {
                                         if epoch == disconnect_epoch {
+                                            let Some(inner) = inner_weak.upgrade() else { return false; };
                                             let _ = inner.disconnect_reason.send_if_modified(|cur| {
                                                 if cur.is_none() {
                                                     *cur = Some(DisconnectReason::IceDisconnected);
